@@ -134,10 +134,21 @@ def oracle_run(args):
             s3, _ = _run(spec, spec["dt"] / 4, spec["steps"] * 4)
             r3 = float(np.max(np.abs(np.asarray(o3[-1]["density_matrix"]) - np.asarray(s3[-1]["density_matrix"]))))
             balance_ok = not (r3 > 0.02 and r3 > 0.75 * r2)
+            if not balance_ok:
+                # ... and only if the exponential integrator itself is in its asymptotic regime on this run: its own final rho must
+                # settle under step halving. (Thorough seed 85: a random 4-state model with a very light particle - the final density
+                # matrix of EITHER integrator still changes by O(1) at every halving down to dt/64; the entries carry phases E t with
+                # energies of order 100, nothing is converged, and "the two integrators differ" says nothing.)
+                e12 = float(np.max(np.abs(np.asarray(o1[-1]["density_matrix"]) - np.asarray(o2[-1]["density_matrix"]))))
+                e23 = float(np.max(np.abs(np.asarray(o2[-1]["density_matrix"]) - np.asarray(o3[-1]["density_matrix"]))))
+                if e23 > 0.02 and e23 > 0.6 * e12:
+                    balance_ok = True
+                    spec["_not_asymptotic"] = (e12, e23)
     return (not problems) and force_ok and drift_ok and balance_ok, \
         {"max_force_deviation": worst, "drift_dt": d1, "drift_dt/2": d2, "problems": problems[:2],
          "force_ok": force_ok, "drift_ok": drift_ok, "is_population_weighted_force": is_pinned,
-         "balance_residual_dt": r1, "balance_residual_dt/2": r2, "balance_ok": balance_ok}, \
+         "balance_residual_dt": r1, "balance_residual_dt/2": r2, "balance_ok": balance_ok,
+         "integrator_comparison_not_judged_exp_not_asymptotic": list(spec["_not_asymptotic"]) if spec.get("_not_asymptotic") else None}, \
         {"max_force_deviation": 0.0, "drift ratio": "<= 0.6 (second order: 0.25)"}, \
         ("force used differs from -tr(rho grad H) by %.3g; " % worst if not force_ok else "") + \
         ("energy drift %.3g at dt, %.3g at dt/2 (does not vanish with dt); " % (d1, d2) if not drift_ok else "") + \
